@@ -181,7 +181,9 @@ def popQE (p : Pop) (l : List QE) : Option (QE × List QE) :=
   | .back => match l.getLast? with | none => none | some x => some (x, l.dropLast)
 
 /-- the `while let Some(cur) = queue.pop…()` loop of `dijkstra`; `mapping` is the result map as an
-    insertion-ordered association list node ↦ first edge -/
+    insertion-ordered association list node index ↦ first edge (the code keys the entry by
+    `self.nodes[cur.idx].module.path()`; `nodes` does not change, so `dijkstra` below translates the
+    indices once at the end) -/
 def dijkstraLoop (t : T) (p : Pop) : Nat → List Nat → List QE → List (Nat × FullEdge) →
     Option (List (Nat × FullEdge))
   | 0, _, _, _ => none
@@ -193,7 +195,7 @@ def dijkstraLoop (t : T) (p : Pop) : Nat → List Nat → List QE → List (Nat 
       else
         let visited := visited ++ [cur.idx]
         let mapping := match cur.next with
-          | some hop => mapping ++ [(t.nodes.getD cur.idx 0, hop)]
+          | some hop => mapping ++ [(cur.idx, hop)]
           | none => mapping
         let pushes := (t.edgesAt cur.idx).filterMap fun e =>
           if visited.contains e.dst then none
@@ -208,6 +210,8 @@ def T.size (t : T) : Nat := (t.edges.map List.length).sum
 def dijkstra (t : T) (p : Pop) (src : Nat) : Option (List (Nat × FullEdge)) :=
   match indexOf t.nodes src with
   | none => none
-  | some i => dijkstraLoop t p (t.size + 2) [] [⟨i, 0, none⟩] []
+  | some i =>
+    (dijkstraLoop t p (t.size + 2) [] [⟨i, 0, none⟩] []).map fun l =>
+      l.map fun entry => (t.nodes.getD entry.1 0, entry.2)
 
 end Topo
